@@ -11,6 +11,7 @@ mod curve;
 mod topo;
 mod closest;
 mod ray;
+mod rigid;
 
 pub struct State {
     pub slots: std::collections::HashMap<String, Box<dyn std::any::Any>>,
@@ -30,6 +31,7 @@ fn dispatch(rec: &Value, st: &mut State) -> Value {
         "topo" => topo::exec(rec, st),
         "closest" => closest::exec(rec, st),
         "ray" => ray::exec(rec, st),
+        "rigid" => rigid::exec(rec, st),
         _ => json!({"unknown_module": true}),
     }
 }
